@@ -105,7 +105,7 @@ where
 
     /// Observe new data point.
     pub fn add(&mut self, obj: T) {
-        let t = self.k * 4; // TODO: make this a parameter
+        let t = self.k.saturating_mul(4); // TODO: make this a parameter
 
         if self.i < self.k {
             // initial fill-up
